@@ -2,7 +2,7 @@
 ID = "C11"
 CRATE = "c11"
 COQ_DIR = "C11"
-PROFILES = ["debug"]
+PROFILES = ["debug", "release"]
 CORR_IMPORT = "From RlibV Require Import C11.Model C11.Corr.\nOpen Scope Z_scope."
 AUDIT_IMPORT = "From Coq Require Import ZArith List.\nFrom RlibV Require Import C11.Model C11.Corr C11.Trace C11.Properties.\nOpen Scope Z_scope."
 EXPLAIN = "explain"
